@@ -115,7 +115,7 @@ class Schema:
             kids.append(E(x + 'import', a))
         comps = [self._comp(c) for c in self.components]
         nsd = {self.xs: XS}
-        nsd.update(self.prefixes)
+        nsd.update({k: attr(v) for k, v in self.prefixes.items()})
         a = {'elementFormDefault': 'qualified'}
         put(a, 'targetNamespace', self.tns)
         if self.order is not None:
@@ -299,8 +299,8 @@ class Wsdl:
     def tree(self):
         w = 'wsdl:'
         so = 'soap:'
-        nsd = {'wsdl': WSDL, 'soap': SOAP, 'xs': XS, 'tns': self.tns}
-        nsd.update(self.prefixes)
+        nsd = {'wsdl': WSDL, 'soap': SOAP, 'xs': XS, 'tns': attr(self.tns)}
+        nsd.update({k: attr(v) for k, v in self.prefixes.items()})
         kids = [E(w + 'types', {}, [self.schema.tree()] + [x.tree() for x in self.extra_schemas])]
         for msg in self.messages:
             ps = []
